@@ -115,6 +115,11 @@ def pca(X, centre=True, inplace=False, eps=1e-10):
         # integer (or boolean) data can hold neither the centred data nor the
         # rescaled eigenvectors: work on a floating point copy instead
         inplace = False
+    if inplace and not X.flags.writeable:
+        # read-only data (a memory-mapped file, a broadcast view) can neither be
+        # centred nor be overwritten with the eigenvectors in place: work on a
+        # copy instead
+        inplace = False
     # This is required if the data matrix is very large!
     if inplace:
         X -= m
